@@ -173,4 +173,65 @@ Section Cell.
     | Panic => Some Panic
     | Diverge => Some Diverge
     end.
+
+  (* ---- normalize_longitudes and the final ring of cell_to_boundary *)
+  (* f64 remainder x % m (sign of the dividend): x - m * trunc(x / m) *)
+  Definition trunc (x : T) : option Z :=
+    neg <-? o_ltb OP x (z2T 0) ;;
+    if neg then option_map Z.opp (o_floor OP (o_neg OP x)) else o_floor OP x.
+  Definition frem (x m : T) : option T :=
+    q <-? trunc (x / m) ;; Some (x - m * z2T q).
+
+  (* while lon - center > 180 { lon -= 360 }  /  while lon - center < -180 { lon += 360 } *)
+  Fixpoint wrap_down (fuel : nat) (lon center : T) : option T :=
+    match fuel with
+    | O => None
+    | S f => gt <-? o_ltb OP (z2T 180) (lon - center) ;;
+             if gt then wrap_down f (lon - z2T 360) center else Some lon
+    end.
+  Fixpoint wrap_up (fuel : nat) (lon center : T) : option T :=
+    match fuel with
+    | O => None
+    | S f => lt <-? o_ltb OP (lon - center) (z2T (-180)) ;;
+             if lt then wrap_up f (lon + z2T 360) center else Some lon
+    end.
+
+  Definition normalize_longitudes (contour : list (T * T)) : option (list (T * T)) :=
+    match contour with
+    | [] => Some []
+    | first :: _ =>
+        let pts := map (fun p => let '(theta, phi) := from_lon_lat OP (fst p) (snd p) in
+                                 to_cartesian OP theta phi) contour in
+        let c := fold_left (fun a p => vadd OP a p) pts (z2T 0, z2T 0, z2T 0) in
+        let '(cx, cy, cz) := c in
+        let len := o_sqrt OP ((cx * cx + cy * cy) + cz * cz) in
+        pos <-? o_ltb OP (z2T 0) len ;;
+        let cn : T * T * T := if pos then (cx / len, cy / len, cz / len) else c in
+        '(theta, phi) <-? to_spherical OP cn ;;
+        let '(clon0, clat) := to_lon_lat OP theta phi in
+        low <-? o_ltb OP clat (lit OP (-8999) 100) ;;
+        high <-? o_ltb OP (lit OP 8999 100) clat ;;
+        let clon1 := if low || high then fst first else clon0 in
+        r1 <-? frem (clon1 + z2T 180) (z2T 360) ;;
+        r2 <-? frem (r1 + z2T 360) (z2T 360) ;;
+        let center_lon := r2 - z2T 180 in
+        mapM_opt (fun p => l1 <-? wrap_down 8 (fst p) center_lon ;;
+                           l2 <-? wrap_up 8 l1 center_lon ;;
+                           Some (l2, snd p)) contour
+    end.
+
+  (* cell_to_boundary(id, {closed_ring, segments}) *)
+  Definition cell_to_boundary (id : Z) (segments : option Z) (closed_ring : bool)
+    : option (out (list (T * T))) :=
+    r <-? cell_boundary_raw id segments ;;
+    match r with
+    | Ok [] => Some (Ok [])     (* the world cell: unbounded *)
+    | Ok pts =>
+        nb <-? normalize_longitudes pts ;;
+        let ring := if closed_ring then nb ++ firstn 1 nb else nb in
+        Some (Ok (rev ring))
+    | Err => Some Err
+    | Panic => Some Panic
+    | Diverge => Some Diverge
+    end.
 End Cell.
